@@ -145,11 +145,18 @@ def r16_2(run, model):
         run.ob("R16.2", f"{fn_.qual}|{what}", bool(hit), site(fn_.file, fn_.node["sp"]),
                f"condition for `{what}` {'returns Err' if hit else ('does not return Err' if hit is not None else 'not found')}", witness=witness)
 
-    if_returns_err(f, lambda t: re.fullmatch(r"temp\.contains\(&?name\)", t) is not None, "cycle", "A imports B imports A: the walk recurses forever or accepts")
+    # the temporary mark: the set that is inserted into before the recursive visit and removed from after it
+    ins = {S.norm_ws(run.facts.text(PK, c["recv"]["sp"])) for c in S.walk(f.body) if c["k"] == "MethodCall" and c["method"] == "insert"}
+    rem = {S.norm_ws(run.facts.text(PK, c["recv"]["sp"])) for c in S.walk(f.body) if c["k"] == "MethodCall" and c["method"] == "remove"}
+    marks = sorted(ins & rem)
+    if not marks:
+        raise AnalysisIncomplete("visit_package: no set that is both inserted into and removed from (temporary DFS mark)")
+    mark = marks[0]
+    if_returns_err(f, lambda t: re.fullmatch(re.escape(mark) + r"\.contains\(&?\w+\)", t) is not None, "cycle", "A imports B imports A: the walk recurses forever or accepts")
     if_returns_err(f, lambda t: t.startswith("!") and "packages.contains_key" in t, "missing import", "an import of a package that was not discovered is ignored")
     # the temp mark is set before recursing and cleared after
     body_txt = S.norm_ws(run.facts.text(PK, f.body["sp"]))
-    order_ok = 0 <= body_txt.find("temp.insert(") < body_txt.find("visit_package(") < body_txt.find("temp.remove(")
+    order_ok = 0 <= body_txt.find(mark + ".insert(") < body_txt.find(f.name + "(") < body_txt.find(mark + ".remove(")
     run.ob("R16.2", f"{f.qual}|temporary mark brackets the recursion", order_ok, site(PK, f.node["sp"]),
            "temp.insert precedes the recursive visit and temp.remove follows it" if order_ok else "temporary mark is not set around the recursion")
     d = model.fn("discover_packages_with_layout", PK)
